@@ -19,7 +19,7 @@ import (
 
 func init() {
 	register("C01", "other", LoadOpts{TC: true, SSA: true, Controls: []string{"overlap"}}, checkC01)
-	register("C15", "other", LoadOpts{TC: true, SSA: true, Gen: true, Controls: []string{"cells"}}, checkC15)
+	register("C15", "other", LoadOpts{TC: true, SSA: true, Gen: true, Controls: []string{"cells", "cells2"}}, checkC15)
 }
 
 type fieldImpl struct {
@@ -660,7 +660,7 @@ func laAlias(c *Ctx, rule string) {
 
 func checkC01(c *Ctx) {
 	r := c.R
-	r.Explanation = "Necessary conditions of the round trip that are static choices shared by writer and reader, decided for all values: codec pairing and provenance (LA-codec); PLAIN layout per element type — width, little-endian, bit-preserving conversions (same-width integer conversion or math.FloatNNbits), which is what makes NaN payloads, +-0, extreme integers survive; string length prefix width and order; bool bit order on both sides (LA-plain); presence, order and widths of the level streams of a page (LA-order); Add copies the record and shredders keep only primitive values; assemblers never store a slice of the reader's buffers into a record (LA-alias) — this decides the two 'unaffected by mutation' sentences outright. Per struct shape, 'assembly inverts shredding' is decided under C05/C03 (translation validation). NOT decided: page-chain / row-group / cursor arithmetic, loop termination by counts, multi-page bool unpacking, thrift, snappy/gzip internals, Rows()/Next() counts."
+	r.Explanation = "Necessary conditions of the round trip that are static choices shared by writer and reader, decided for all values: codec pairing and provenance (LA-codec); PLAIN layout per element type — width, little-endian, bit-preserving conversions (same-width integer conversion or math.FloatNNbits), which is what makes NaN payloads, +-0, extreme integers survive; string length prefix width and order; bool bit order on both sides (LA-plain); presence, order and widths of the level streams of a page (LA-order); Add copies the record and shredders keep only primitive values; assemblers never store a slice of the reader's buffers into a record (LA-alias) — this decides the two 'unaffected by mutation' sentences outright; (WH-reset, WH-child) for 'any split into batches, any page size': Write re-initialises every writer field Add advances, and the writer created for the next page inherits sink, page size, codec and metadata. Per struct shape, 'assembly inverts shredding' is decided under C05/C03 (translation validation). NOT decided: page-chain / row-group / cursor arithmetic, loop termination by counts, multi-page bool unpacking, thrift, snappy/gzip internals, Rows()/Next() counts."
 	laCodec(c, "LA-codec")
 	laPlain(c, "LA-plain")
 	laOrder(c, "LA-order")
@@ -670,6 +670,9 @@ func checkC01(c *Ctx) {
 	laRunKind(c)
 	laLEB(c)
 	checkTypeFuncs(c)
+	// "split in any way into Write batches, with any page size": the two history conditions that are visible in code shape
+	runWHReset(c, "WH-reset")
+	runWHChild(c, "WH-child")
 	r.assume("per-shape inversion of shredding by assembly is claimed under C05 (TV-asm/TV-shred), not here")
 }
 
